@@ -29,7 +29,7 @@ import z3
 
 from contracts import sigma_contracts as SC_
 from vlib.core import Clause
-from vlib.pyvc import arrays, matrix
+from vlib.pyvc import arrays, matrix, nra
 from vlib.pyvc import engine as E
 from vlib.pyvc.run import run_contract
 
@@ -55,6 +55,37 @@ def alpha_(j):
 def g0_(j, k):
   """G / R as documented."""
   return z3.If(k == j, alpha_(j), z3.If(k > j, alpha_(k) + alpha_(k - 1), z3.RealVal(0)))
+
+
+def ensure_cases(en, name, base_int, cases, real_hyps, goal, timeout_ms=60000):
+  """One obligation split into index cases (each: If-resolution under the case's integer facts, uninterpreted applications abstracted,
+  nlsat -- vlib/pyvc/nra.py).  The cases must be exhaustive: that is an obligation of its own (linear integer arithmetic)."""
+  import time
+  from vlib import smt
+  t0 = time.time()
+  cover = smt.valid(list(base_int), z3.Or(*[z3.And(*c) for _, c in cases]), timeout_ms=20000)
+  status, detail, model, smt2, back = 'valid', '', None, '', 'z3-nlsat'
+  if cover.status != 'valid':
+    status, detail = 'unknown', f'case split not shown exhaustive ({cover.status})'
+  else:
+    for label, c in cases:
+      v = nra.prove(list(base_int) + list(c), real_hyps, goal, timeout_ms=timeout_ms)
+      if v.status == 'invalid':
+        status, model, smt2 = 'invalid', (en.model_of_inputs(v.model) if v.model is not None else None), v.smt2[:20000]
+        detail = f'case {label}: counter-model: {model}' if model is not None else f'case {label}: {v.reason}'
+        break
+      if v.status != 'valid':
+        status, detail = 'unknown', f'case {label}: {v.reason}'[:400]
+        break
+  r = E.ObligationResult(f'{name} [{len(cases)} index cases]', status, seconds=time.time() - t0, back_end=back, detail=detail)
+  r.model, r.smt2 = model, smt2
+  en.results.append(r)
+  return status == 'valid'
+
+
+def _pos(*idx):
+  """Instances of the representation invariant B(t) < B(t+1) for 0 <= t < N."""
+  return [z3.Implies(z3.And(t >= 0, t < N), B(t) < B(t + 1)) for t in idx]
 
 
 def _setup(en):
@@ -279,11 +310,17 @@ def temperature_weights_contract(en: E.Engine):
   en.assume(z3.And(r >= 0, r < N, s >= 0, s < N))
   en.ensure('H is layers x layers', z3.And(E.to_z3(H.rows) == N, E.to_z3(H.cols) == N))
   spec = h_spec(CS, kappa)
-  en.ensure('H[r, s] == dsigma[s] (kappa T[r] (P(r-s) alpha[r] + P(r-s-1) alpha[r-1]) / dsigma[r] - K[r, s] - K[r-1, s]) as documented', H.get(r, s) == spec(r, s))
   s2 = en.int('s2')
-  en.assume(z3.And(s2 >= 0, s2 < N))
-  en.ensure('below the diagonal H[r, s] / dsigma[s] does not depend on s', z3.Implies(z3.And(s < r, s2 < r), H.get(r, s) * d_(s2) == H.get(r, s2) * d_(s)))
-  en.ensure('above the diagonal H[r, s] / dsigma[s] does not depend on s', z3.Implies(z3.And(s > r, s2 > r), H.get(r, s) * d_(s2) == H.get(r, s2) * d_(s)))
+  base = [N >= 1, r >= 0, r < N, s >= 0, s < N, s2 >= 0, s2 < N]
+  rows = [('r = 0 = N-1', [r == 0, N == 1]), ('r = 0 < N-1', [r == 0, N >= 2]), ('0 < r < N-1', [r >= 1, r < N - 1]), ('0 < r = N-1', [r >= 1, r == N - 1])]
+  cols = [('s < r', [s < r]), ('s = r', [s == r]), ('s > r', [s > r])]
+  cases = [(f'{a}, {b}', ca + cb) for a, ca in rows for b, cb in cols]
+  pos = _pos(r - 1, r, r + 1, s, s2)
+  ensure_cases(en, 'H[r, s] == dsigma[s] (kappa T[r] (P(r-s) alpha[r] + P(r-s-1) alpha[r-1]) / dsigma[r] - K[r, s] - K[r-1, s]) as documented',
+               base, cases, pos, H.get(r, s) == spec(r, s))
+  cases2 = [(a, ca) for a, ca in rows]
+  ensure_cases(en, 'below the diagonal H[r, s] / dsigma[s] does not depend on s', base + [s < r, s2 < r], cases2, pos, H.get(r, s) * d_(s2) == H.get(r, s2) * d_(s))
+  ensure_cases(en, 'above the diagonal H[r, s] / dsigma[s] does not depend on s', base + [s > r, s2 > r], cases2, pos, H.get(r, s) * d_(s2) == H.get(r, s2) * d_(s))
 
 
 def temperature_length_contract(en: E.Engine):
@@ -303,14 +340,22 @@ def temperature_length_contract(en: E.Engine):
     en.ensure('a reference temperature of the wrong length is rejected', M == N)
 
 
+HU = z3.Function('H.at', z3.IntSort(), z3.IntSort(), z3.RealSort())
+
+
 def temperature_sparse_contract(en: E.Engine):
+  """Modular: get_temperature_implicit_weights is replaced by its contract -- an opaque layers x layers matrix H with the two structure
+  facts proved for the real function by temperature_weights_contract (instantiated below at the indices that occur)."""
   from dinosaur import primitive_equations as pe
   self = _coords(en)
-  _alpha_callee(en)
   T, kappa = _temperature(en)
   seen = {}
   _matvec_callee(en, seen)
   _cumsum_callee(en, seen)
+  Hm = matrix.SymMat(N, N, lambda r, s: HU(E.to_z3(r), E.to_z3(s)), 'H')
+  en.contracts[E._callable_key(pe.get_temperature_implicit_weights)] = lambda en_, coords, t, k=None: Hm
+  en.trusted.add('callee contract: get_temperature_implicit_weights returns a layers x layers matrix with H[r, s] dsigma[s2] == H[r, s2] dsigma[s] for s, s2 both below or both '
+                 'above the diagonal (discharged by the clause on get_temperature_implicit_weights)')
   x = E.SymSeq(N, lambda i: XD(E.to_z3(i)), z3.RealSort(), 'divergence')
   en.cover('requires: valid sigma coordinates, one reference temperature per layer')
   kind, dense = en.invoke(en.load_function(pe.get_temperature_implicit), x, self, T, kappa, 'dense')
@@ -320,20 +365,36 @@ def temperature_sparse_contract(en: E.Engine):
     return
   g = en.int('g')
   en.assume(z3.And(g >= 0, g < N))
-  C, y, W = seen['C'], seen['y'], seen['W']
+  C, y, W, D = seen['C'], seen['y'], seen['W'], seen['D']
   h_ = en.int('h')
   en.assume(z3.And(h_ >= 0, h_ < N))
   en.ensure('the cumulative sums run over dsigma[h] * divergence[h]', y(h_) == d_(h_) * XD(h_))
-  yfun = lambda h: d_(h) * XD(h)
   # coefficients the sparse form *should* use, from the matrix the dense form contracts with
-  u = z3.If(g >= 1, E._real(W(g, 0)) / d_(0), z3.RealVal(0))
-  d = z3.If(g < N - 1, E._real(W(g, N - 1)) / d_(N - 1), z3.RealVal(0))
-  below, above, concl = _lemma_instance(seen, g, u, d, N, yfun)
-  en.ensure('lemma hypothesis: below the diagonal W[g, h] x[h] == (W[g, 0] / dsigma[0]) dsigma[h] x[h]', below)
-  en.ensure('lemma hypothesis: above the diagonal W[g, h] x[h] == (W[g, N-1] / dsigma[N-1]) dsigma[h] x[h]', above)
-  ax = [concl, C(g + 1) == C(g) + y(g)]
-  en.ensure("get_temperature_implicit(method='sparse')[g] == get_temperature_implicit(method='dense')[g] (given the lemma conclusion and C(g+1) = C(g) + y[g])",
-            z3.Implies(z3.And(*ax), sparse.get(g) == dense.get(g)))
+  Wr = lambda a, b: E._real(W(a, b))
+  u = z3.If(g >= 1, Wr(g, 0) / d_(0), z3.RealVal(0))
+  d = z3.If(g < N - 1, Wr(g, N - 1) / d_(N - 1), z3.RealVal(0))
+  base = [N >= 1, g >= 0, g < N, h_ >= 0, h_ < N]
+  pos = _pos(g - 1, g, g + 1, h_ - 1, h_, h_ + 1, z3.IntVal(0), N - 1)
+  # the callee's structure facts at the indices used here
+  inst = lambda r, a, b: [z3.Implies(z3.And(a < r, b < r, a >= 0, b >= 0), HU(r, a) * d_(b) == HU(r, b) * d_(a)),
+                          z3.Implies(z3.And(a > r, b > r, a < N, b < N), HU(r, a) * d_(b) == HU(r, b) * d_(a))]
+  pos = pos + inst(g, h_, z3.IntVal(0)) + inst(g, h_, N - 1)
+  rows = [('g = 0 = N-1', [g == 0, N == 1]), ('g = 0 < N-1', [g == 0, N >= 2]), ('0 < g < N-1', [g >= 1, g < N - 1]), ('0 < g = N-1', [g >= 1, g == N - 1])]
+  # lemma hypotheses, with the bound index skolemised (h is arbitrary in its range)
+  ensure_cases(en, 'lemma hypothesis: below the diagonal W[g, h] x[h] == (W[g, 0] / dsigma[0]) dsigma[h] x[h]', base + [h_ < g], rows, pos,
+               Wr(g, h_) * XD(h_) == u * (d_(h_) * XD(h_)))
+  ensure_cases(en, 'lemma hypothesis: above the diagonal W[g, h] x[h] == (W[g, N-1] / dsigma[N-1]) dsigma[h] x[h]', base + [h_ > g], rows, pos,
+               Wr(g, h_) * XD(h_) == d * (d_(h_) * XD(h_)))
+  concl = D(g, N) == u * C(g) + Wr(g, g) * XD(g) + d * (C(N) - C(g + 1))
+  hyps = list(pos) + [concl, C(g + 1) == C(g) + d_(g) * XD(g)]
+  branch = 'with the downward part'
+  if getattr(en, 'any_facts', None):
+    flag, body = en.any_facts[-1]
+    if not en.truth(flag):
+      branch = 'without the downward part (every down weight is zero)'
+      hyps.append(z3.Not(body(g)))          # instance at g of the path condition  not exists i. down_weights[i] != 0
+  ensure_cases(en, f"get_temperature_implicit(method='sparse')[g] == get_temperature_implicit(method='dense')[g], {branch} (from the lemma conclusion and C(g+1) = C(g) + y[g])",
+               base, rows, hyps, sparse.get(g) == dense.get(g))
 
 
 def canary_contract(en: E.Engine):
@@ -368,10 +429,12 @@ def replay_matrices(w):
     if not np.allclose(got, H, rtol=1e-10, atol=1e-10):
       return True, f'get_temperature_implicit_weights on boundaries {b.tolist()}, T {T.tolist()}: {got.tolist()} vs documented {H.tolist()}'
     x = rng.randn(n, 1, 1)
-    for fn, args in ((pe.get_geopotential_diff, (co, 2.5)), (pe.get_temperature_implicit, (co, T, 0.3))):
+    T_iso_top = np.concatenate([np.full(n - n // 2, 220.0), 220.0 + 15.0 * np.arange(1, n // 2 + 1)])      # constant over the upper part of the column
+    for fn, args in ((pe.get_geopotential_diff, (co, 2.5)), (pe.get_temperature_implicit, (co, T, 0.3)), (pe.get_temperature_implicit, (co, T_iso_top, 0.3)),
+                     (pe.get_temperature_implicit, (co, np.full(n, 250.0), 0.3))):
       a, s_ = np.asarray(fn(x, *args, method='dense')), np.asarray(fn(x, *args, method='sparse'))
       if not np.allclose(a, s_, rtol=1e-6, atol=1e-6 * max(1.0, float(np.max(np.abs(a))))):
-        return True, f'{fn.__name__} on boundaries {b.tolist()}: dense {a.ravel().tolist()} vs sparse {s_.ravel().tolist()}'
+        return True, f'{fn.__name__} on boundaries {b.tolist()}, arguments {[np.asarray(v).tolist() for v in args[1:]]}: dense {a.ravel().tolist()} vs sparse {s_.ravel().tolist()}'
   return False, 'weight matrices equal the documented ones and dense == sparse on the sampled columns'
 
 
